@@ -39,11 +39,12 @@ fn main() {
         }
     }
     out::start_watchdog();
-    std::panic::set_hook(Box::new(|_| {}));
+    if std::env::var("VM_PANICMSG").is_err() { std::panic::set_hook(Box::new(|_| {})); }
     match (cmd.as_str(), a.prop.as_str()) {
         ("gen", "C12") => c12::gen(&a),
         ("gen", "C14") => c14::gen(&a),
         ("gen", "VM") => vmrun::gen(&a),
+        ("replay", "VM") => vmrun::replay(&a),
         _ => { eprintln!("unknown command/property"); std::process::exit(2); }
     }
 }
